@@ -62,6 +62,19 @@ def run_timing_history(case, ob, site):
         ob.prove_all(goals, p.pc + [d.t >= 0 for d in cache.values()], None)
 
 
+def run_timing_copy(case, ob, site):
+    """the default-model analysis of a copy equals that of its source (the copy is the same design)"""
+    block = designs.build(case)
+    ta = analysis.TimingAnalysis(block=block)
+    cp = pyrtl.copy_block(block, update_working_block=False)
+    tb = analysis.TimingAnalysis(block=cp)
+    byname = {w.name: x for w, x in tb.timing_map.items()}
+    bad = {w.name: (x, byname.get(w.name)) for w, x in ta.timing_map.items() if byname.get(w.name) != x}
+    ob.fact('copy-has-the-timing-of-its-source', not bad, site + ':timing_map', detail=bad)
+    ob.fact('copy-has-the-max_length-of-its-source', ta.max_length() == tb.max_length(), site + ':max_length',
+            detail=[ta.max_length(), tb.max_length()])
+
+
 def cases(tier, seed):
     out = []
     n = 40 if tier == 'quick' else 800
@@ -82,6 +95,9 @@ def cases(tier, seed):
             out.append({'k': 'max_freq', 'tech': tech, 'ff': ff})
     for name in ('reconv', 'mem_wr_rd', 'diamond3'):
         out.append({'fam': 'GRAPH', 'kind': name, 'k': 'timing_history', 'wb': 'same'})
+    for name in ('mem_wr_rd', 'two_mems', 'mem_rd_to_wraddr', 'reconv'):
+        out.append({'fam': 'GRAPH', 'kind': name, 'k': 'paths', 'form': 'copy', 'wb': 'same'})
+        out.append({'fam': 'GRAPH', 'kind': name, 'k': 'timing_copy', 'wb': 'same'})
     return out
 
 
@@ -415,6 +431,9 @@ def _decoy():
 
 def run_paths(case, ob, site):
     block = designs.build(case)
+    if case.get('form') == 'copy':
+        # "for every design": also one that copy_block() produced
+        block = pyrtl.copy_block(block, update_working_block=True)
     if len(block.logic) > 14:
         ob.fact('skipped', True)
         return
@@ -552,11 +571,11 @@ def site_of(c):
     if c['k'] == 'max_freq':
         return 'C17:max_freq'
     d = c.get('kind') or c['fam']
-    return 'C17:%s:%s' % (c['k'], d)
+    return 'C17:%s:%s%s' % (c['k'], d, ':copy' if c.get('form') == 'copy' else '')
 
 
 def run_case(case, ob, tier):
-    {'timing': run_timing, 'paths': run_paths, 'max_freq': run_max_freq, 'timing_history': run_timing_history}[case['k']](case, ob, site_of(case))
+    {'timing': run_timing, 'paths': run_paths, 'max_freq': run_max_freq, 'timing_history': run_timing_history, 'timing_copy': run_timing_copy}[case['k']](case, ob, site_of(case))
 
 
 def replay(cex):
@@ -570,8 +589,15 @@ def replay(cex):
         bad = ['%s: %r before, %r after an analysis under a custom delay model' % (w.name, before.timing_map[w], after.timing_map.get(w))
                for w in before.timing_map if after.timing_map.get(w) != before.timing_map[w]]
         return bool(bad), '\n'.join(sorted(bad)[:6])
+    if c['k'] == 'timing_copy':
+        from ..core import Obligations
+        ob = Obligations(PROP, c, 10000)
+        run_timing_copy(c, ob, site_of(c))
+        return bool(ob.sat), 'timing of the copy differs from its source: %r' % [(x['obligation'], x.get('detail')) for x in ob.sat][:3]
     if c['k'] == 'paths':
         block = designs.build(c)
+        if c.get('form') == 'copy':
+            block = pyrtl.copy_block(block, update_working_block=True)
         if cex.get('structural'):
             from ..core import Obligations
             ob = Obligations(PROP, c, 10000)
